@@ -522,7 +522,6 @@ def call_inline(ex, f, args, kw, st, qual=None):
     frame = {}
     if f.closure is not None:
         # closures read their free variables from the defining frame (current values: late binding)
-        frame.update(caller_env if f.closure is st or True else {})
         frame = dict(_closure_env(f, st))
     frame.update(env)
     st.env = frame
@@ -540,6 +539,9 @@ def call_inline(ex, f, args, kw, st, qual=None):
             res = [(s, Outcome.RET, v) for s, v in ex.eval(node.body, st)]
         else:
             res = ex.exec_block(node.body, st)
+    except BaseException:
+        st.env = caller_env
+        raise
     finally:
         ex.fn, ex.genv, ex.contract, ex.loop_ords = saved
         ex.inline_depth -= 1
